@@ -18,6 +18,7 @@ import (
 )
 
 func init() {
+	vhRegister("VH_C17_Conn", func(p []int) { VH_C17_Conn(p[0], p[1]) })
 	vhRegister("VH_C05_Stream", func(p []int) { VH_C05_Stream(p[0], p[1], p[2], p[3]) })
 	vhRegister("VH_C07_Handshake", func(p []int) { VH_C07_Handshake(p[0]) })
 	vhRegister("VH_C07_Attempts", func(p []int) { VH_C07_Attempts(p[0], p[1]) })
@@ -37,6 +38,7 @@ type vScript struct {
 	errMsg      []byte
 	failFactory bool
 	failExec    bool
+	execCode    uint16 // error code of the master's answer to the SET statement when failExec
 	failNotice  bool
 	pipe        bool // native only: in-memory transport instead of loopback TCP
 	ahead       bool // pacing: master far ahead (buffered hand-off) or lock-step
@@ -109,7 +111,8 @@ func vhModelDumpConn(dsn string, ctx context.Context) (*vConn, error) {
 func (c *vConn) Exec(q string) error {
 	c.log = append(c.log, vCall{kind: 0, query: q})
 	if c.sc.failExec {
-		return errModelFail
+		// the master REFUSES the statement (ERR packet): the driver's own error type, connection still usable
+		return &mysql.MySQLError{Number: c.sc.execCode, Message: "scripted failure"}
 	}
 	return nil
 }
@@ -292,6 +295,7 @@ const (
 //	ahead   0 lock-step hand-off, 1 master far ahead
 //	hmode   handler: 0 returns at once, 1 yields before returning; 2: as 0, with an 18-byte master error message;
 //	        3: as 0, with a STOP_EVENT in the stream before the transactions
+//	        4: as 0, the transactions are BEGIN ... ROLLBACK pairs (delivered empty)
 func VH_C05_Stream(cause, npk, ahead, hmode int) {
 	msgLen := 3
 	if hmode == 2 {
@@ -299,6 +303,10 @@ func VH_C05_Stream(cause, npk, ahead, hmode int) {
 	}
 	stopEvent := hmode == 3
 	if stopEvent {
+		hmode = 0
+	}
+	rolledBack := hmode == 4
+	if rolledBack {
 		hmode = 0
 	}
 	sc := &vScript{ahead: ahead == 1}
@@ -309,6 +317,12 @@ func VH_C05_Stream(cause, npk, ahead, hmode int) {
 		sc.packets = append(sc.packets, vwEv(3, 150, nil))
 	}
 	for i := 0; i < npk; i++ {
+		if rolledBack {
+			// a rolled-back transaction: delivered as an EMPTY transaction that advances the position;
+			// the handler's verdict on it counts like any other
+			sc.packets = append(sc.packets, vwQuery("BEGIN", uint32(150+100*i)), vwQuery("ROLLBACK", uint32(200+100*i)))
+			continue
+		}
 		sc.packets = append(sc.packets, vwQuery("create table t"+string(rune('0'+i))+" (a int)", uint32(200+100*i)))
 	}
 	switch cause {
@@ -332,6 +346,10 @@ func VH_C05_Stream(cause, npk, ahead, hmode int) {
 		sc.failFactory = true
 	case scExec:
 		sc.failExec = true
+		sc.end = endEOF // should a dump start all the same, it ends, and the assertions below speak
+		sc.execCode = vhU16()
+		// codes the driver itself reacts to (read-only / bad-connection handling) are left out
+		vhAssume(sc.execCode != 1290 && sc.execCode != 1792 && sc.execCode != 1836 && sc.execCode != 0)
 	case scNotice:
 		sc.failNotice = true
 		sc.pipe = true
@@ -398,6 +416,11 @@ func VH_C05_Stream(cause, npk, ahead, hmode int) {
 		}
 	case scFactory, scExec, scNotice:
 		vhAssert(err != nil, "a failed handshake makes Stream return an error")
+	}
+	if cause == scExec {
+		for _, c := range env.calls() {
+			vhAssert(c.kind != 1, "no dump request goes out on a connection whose checksum announcement the master refused")
+		}
 	}
 	if err == nil {
 		switch cause {
@@ -625,4 +648,50 @@ func VH_C07_Attempts(attempts, ahead int) {
 	vhAssert(len(accepted) >= 3, "no transaction is lost over the attempts")
 	vhAssert(accepted[0] == 200 && accepted[1] == 300 && accepted[2] == 400, "over all attempts every transaction is accepted exactly once, in order")
 	vhCover("attempts")
+}
+
+// VH_C17_Conn: the validity gate seen from the connection: after the fake ROTATE, the format
+// description and npk autocommitted statements the master sends a packet whose payload is an
+// ARBITRARY buffer of n bytes that fails the validity test (n < 19: shorter than an event header,
+// down to an empty payload), followed by one more well-formed statement. The packet travels the
+// real path -- reader goroutine, readBinlogEvent, hand-off, parseEvents -- so nothing on that path
+// may read a field of it before the test: Stream returns an error (no panic in any goroutine),
+// exactly the npk earlier transactions are delivered, the position is the last accepted boundary,
+// Error() returns and no goroutine or connection is left behind.
+func VH_C17_Conn(n, npk int) {
+	sc := &vScript{end: endEOF}
+	sc.packets = append(sc.packets, vwRotate("bin.000001", 4), vwFDE())
+	for i := 0; i < npk; i++ {
+		sc.packets = append(sc.packets, vwQuery("create table t"+string(rune('0'+i))+" (a int)", uint32(200+100*i)))
+	}
+	bad := vhBytes(n)
+	if n >= 19 {
+		l := uint32(bad[9]) | uint32(bad[10])<<8 | uint32(bad[11])<<16 | uint32(bad[12])<<24
+		vhAssume(l != uint32(n))
+	}
+	sc.packets = append(sc.packets, bad)
+	sc.packets = append(sc.packets, vwQuery("create table late (a int)", 900))
+	env := vhStartEnv(sc)
+	defer env.stop()
+	s, _ := NewStreamer(env.dsn(), 7, &vMapper{})
+	s.SetBinlogPosition(Position{Filename: "bin.000001", Offset: 4})
+	delivered := 0
+	err := s.Stream(newVCtx(), func(t *Transaction) error {
+		delivered++
+		return nil
+	})
+	vhAssert(err != nil, "a packet that fails the validity test ends the stream with an error")
+	vhAssert(delivered == npk, "exactly the transactions before the malformed packet are delivered")
+	want := Position{Filename: "bin.000001", Offset: 4}
+	if npk > 0 {
+		want.Offset = int64(200 + 100*(npk-1))
+	}
+	pos := s.binlogPosition()
+	vhAssert(pos.Filename == want.Filename && pos.Offset == want.Offset, "resume position at the last accepted commit boundary")
+	_ = s.Error() // must return
+	live := vhQuiesce()
+	vhAssert(live == 0, "no goroutine started by the library remains after Stream returned")
+	created, closedN := env.connStats()
+	vhAssert(created == 1 && closedN == 1, "the connection to the master is closed")
+	vhCover("conn-gate")
 }
